@@ -21,7 +21,7 @@ def infn(*parts):
 ALG = ("algorithms/mod.rs", "algorithms/myers.rs", "algorithms/lcs.rs", "algorithms/patience.rs", "algorithms/utils.rs",
        "algorithms/hook.rs")
 PIPE = ("algorithms/compact.rs", "algorithms/replace.rs", "algorithms/capture.rs", "common.rs", "types.rs")
-A_ALL = ["A1", "A2", "A3", "A4", "A5", "A7"]
+A_ALL = ["A1", "A2", "A3", "A4", "A5", "A7", "A8", "A9"]
 
 
 def a_rules(files, rules=A_ALL):
@@ -31,7 +31,7 @@ def a_rules(files, rules=A_ALL):
 PROPERTIES = {
     "C01": {
         "level": "other",
-        "rules": a_rules(ALG) + ["E1"],
+        "rules": a_rules(ALG) + ["E1", "E2", "E3"],
         "explanation": "Decided for all inputs: (1) every index handed to a diff hook by the three algorithms, every index "
                        "into a caller-ranged sequence and every range passed between the algorithm functions is an absolute "
                        "position of the right side and coordinate frame (A1-A5, A7: sort inference over the type-checked HIR "
@@ -42,7 +42,7 @@ PROPERTIES = {
     },
     "C02": {
         "level": "other",
-        "rules": ["F1", "F5", "B5"] + a_rules(PIPE),
+        "rules": ["F1", "F5", "B5", "G3", "G5", "E2", "E3"] + a_rules(PIPE + ALG),
         "explanation": "Decided: the capture pipeline is Compact(Replace(Capture)) and returns that hook's ops (F1); Compact "
                        "replays every buffered op once, in order, then finishes, Replace flushes in order (B5); every op "
                        "constructed or forwarded in compact/replace/capture/common/types takes old-side fields from old-"
@@ -61,7 +61,8 @@ PROPERTIES = {
     },
     "C04": {
         "level": "other",
-        "rules": ["F4", "F2"] + a_rules(("iter.rs", "text/mod.rs"), ["A2", "A3", "A4", "A5"]),
+        "rules": ["F4", "F2", "F11", "F12", "E1", "E2", "E3", ("A6", infile("text/abstraction.rs"))] +
+                 a_rules(("iter.rs", "text/mod.rs") + ALG + PIPE),
         "explanation": "Decided: every Change constructor carries exactly the indices its tag allows and takes its value from "
                        "the proper side, per DiffTag arm (F4); both texts are tokenized by the same tokenizer in the right "
                        "slots and TextDiffConfig::diff stores the very token vectors it diffed (F2); indices in iter.rs / "
@@ -71,7 +72,7 @@ PROPERTIES = {
     },
     "C05": {
         "level": "other",
-        "rules": ["D1", "F8", "F10", "G2"] + a_rules(("udiff.rs",), ["A1", "A3", "A4", "A5"]),
+        "rules": ["D1", "F8", "F10", "G2", "F7"] + a_rules(("udiff.rs",)),
         "explanation": "Decided: no lossy decoding is reachable from the byte writers and each line is written with "
                        "write_all(as_bytes(value)) (D1: call graph incl. fmt::Display edges); Display and to_writer emit the "
                        "same (guard, template) sequence incl. header-once and missing-newline logic (F8); hunk header extents "
@@ -82,7 +83,7 @@ PROPERTIES = {
     },
     "C06": {
         "level": "other",
-        "rules": ["F7", ("A6", infile("text/abstraction.rs"))],
+        "rules": ["F7", "F11", "F12", ("A6", infile("text/abstraction.rs"))],
         "explanation": "Decided (necessary conditions only): the str and [u8] tokenizers use the same break characters and "
                        "character-class predicates (F7), and token boundaries are byte offsets advanced by byte lengths, never "
                        "by counts (A6 in abstraction.rs).  Losslessness, non-emptiness and token shapes are NOT examined.",
@@ -90,7 +91,8 @@ PROPERTIES = {
     },
     "C07": {
         "level": "other",
-        "rules": ["C1", "C2", "C3", "C4", "C5", "B3", "E1"],
+        "rules": ["C1", "C2", "C3", "C4", "C5", "C6", "B3", "E1", "E2", "E3"] +
+                 [(r, infn("myers::conquer", "lcs::diff_deadline")) for r in ("A1", "A7")],
         "explanation": "Decided: every deadline carrier passes its own deadline to every deadline-taking callee and struct "
                        "(C1); the builder stores what it is given and into_instant/deadline_exceeded/duration_to_deadline use "
                        "their argument (C2); the two super-linear loop nests are probed at depth 1 with an exit edge (C3); after "
@@ -111,7 +113,7 @@ PROPERTIES = {
     },
     "C09": {
         "level": "other",
-        "rules": ["E1", "B5", "F1"],
+        "rules": ["E1", "B5", "F1", "G3"],
         "explanation": "Decided: no algorithm emits an empty op (E1); Replace merges runs and emits delete/replace before "
                        "insert, flushing in order (B5); both adapters are in the capture pipeline, Compact outside Replace (F1)."
                        "  Alternation after compaction and 'insertion sits at its latest position' are NOT examined.",
@@ -119,7 +121,7 @@ PROPERTIES = {
     },
     "C10": {
         "level": "other",
-        "rules": ["F5", "B5", ("B4", infile("algorithms/compact.rs", "algorithms/capture.rs"))] +
+        "rules": ["F5", "B5", "G3", "G5", ("B4", infile("algorithms/compact.rs", "algorithms/capture.rs"))] +
                  a_rules(("algorithms/compact.rs", "algorithms/replace.rs", "types.rs")),
         "explanation": "Decided (structural parts only): no slot or side mix-up in any compaction arm or in Replace (A1-A5, A7), "
                        "helpers move start and length consistently (F5), Replace/Compact typestate (B5), Compact buffers exactly "
@@ -128,7 +130,9 @@ PROPERTIES = {
     },
     "C11": {
         "level": "other",
-        "rules": ["G1", "F5", "F10", "A4", ("A1", infile("types.rs", "algorithms/compact.rs", "algorithms/replace.rs"))],
+        "rules": ["G1", "G5", "F5", "F10", "A4", "A9", "E3",
+                  ("A1", infile("types.rs", "algorithms/compact.rs", "algorithms/replace.rs", "algorithms/lcs.rs",
+                                "algorithms/myers.rs", "algorithms/patience.rs"))],
         "explanation": "Decided: every order-changing operation on a list of ops is followed by a rewrite of the affected "
                        "elements (G1 -> two known unrepaired swap sites); shift/grow/shrink move both indices together (F5); "
                        "every DiffOp constructed anywhere takes old_index from an old-side and new_index from a new-side "
@@ -137,7 +141,7 @@ PROPERTIES = {
     },
     "C13": {
         "level": "other",
-        "rules": ["F4", "F3"] + a_rules(("iter.rs", "types.rs"), ["A1", "A2", "A4", "A5"]),
+        "rules": ["F4", "F3"] + a_rules(("iter.rs", "types.rs")),
         "explanation": "Decided: per-variant tables of ChangesIter::next, as_tag_tuple, apply_to_hook and both iter_slices "
                        "(F3/F4: tags, Some/None indices, value side, Replace = deletes then inserts, twins identical); old "
                        "cursor indexes old, new cursor indexes new, apply_to_hook passes fields in slot order (A1/A2/A4).  "
@@ -146,7 +150,7 @@ PROPERTIES = {
     },
     "C14": {
         "level": "other",
-        "rules": ["F2", "F6"] + a_rules(("text/mod.rs", "algorithms/utils.rs"), ["A2", "A3", "A4", "A5"]),
+        "rules": ["F2", "F6"] + a_rules(("text/mod.rs", "algorithms/utils.rs")),
         "explanation": "Decided: tokenizer wiring, stored algorithm and newline flag, both size branches use self.algorithm "
                        "(F2); the integer-mapping branch pairs old_lookup with old_range and new_lookup with new_range, offsets "
                        "come from the respective range starts (A3/A4); the two IdentifyDistinct loops are identical up to "
@@ -165,7 +169,7 @@ PROPERTIES = {
     "C16": {
         "level": "other",
         "rules": ["F9", ("F4", infile("text/inline.rs")), ("C1", infile("text/inline.rs", "text/mod.rs"))] +
-                 a_rules(("text/inline.rs",), ["A2", "A3", "A4", "A5", "A6"]),
+                 a_rules(("text/inline.rs",), A_ALL + ["A6"]) + ["F12", ("A6", infile("text/abstraction.rs"))],
         "explanation": "Decided: tags/indices of assembled InlineChanges (F4, A4), side consistency of lookup/push_values use "
                        "(A3), byte-unit discipline of MultiLookup (A6), deadline plumbing of the inline diff (C1), emphasis only "
                        "in Delete/Insert/Replace arms and never on a newline segment (F9).  Concatenation equals the line is "
@@ -174,7 +178,7 @@ PROPERTIES = {
     },
     "C17": {
         "level": "other",
-        "rules": ["F3", "F2"] + a_rules(("utils.rs",), ["A3", "A4", "A5", "A6"]) + [("A6", infile("src/utils.rs"))],
+        "rules": ["F3", "F2", "E1"] + a_rules(("utils.rs", "text/mod.rs")) + [("A6", infile("src/utils.rs"))],
         "explanation": "Decided: source.slice receives byte offsets accumulated from token byte lengths (A6); the old remapper "
                        "is built from old text + old tokens, new from new (A3/A4); iter_slices twin agreement (F3); helper "
                        "wiring (F2).  Reconstruction and 'never panics' are NOT examined.",
@@ -182,7 +186,7 @@ PROPERTIES = {
     },
     "C20": {
         "level": "other",
-        "rules": ["D2", "D3", "D4", "F7", "C5"],
+        "rules": ["D2", "D3", "D4", "F7", "F6", "C5"],
         "explanation": "Decided: the only order-sensitive hash iteration is sorted before use (D2); no clock/thread/env/"
                        "random/address dependence outside the deadline probe (D3, C5); items are only compared with ==/!= and "
                        "hashed, never ordered or formatted (D4: relabelling invariance); str and [u8] tokenizers classify "
